@@ -1,0 +1,40 @@
+//go:build verif
+
+// Verification hooks (build tag "verif"): build the worker-side HTTP handler
+// around a caller-supplied token, and construct the PKCS#11 error type that the
+// handler's type switch looks for. Add-only; not compiled into normal builds.
+
+package workercmd
+
+import (
+	"net/http"
+	"sort"
+	"time"
+
+	"github.com/sassoftware/relic/v8/token"
+	"github.com/sassoftware/relic/v8/token/tokencache"
+)
+
+// VerifHandler is the handler of runWorker: same cache wrapper, same cookie field.
+func VerifHandler(tok token.Token, expiry time.Duration, cookie []byte, shutdown func()) http.Handler {
+	return &handler{
+		token:    tokencache.New(tok, expiry),
+		cookie:   cookie,
+		shutdown: shutdown,
+	}
+}
+
+// VerifPkcs11Error returns an error of the type matched by `case pkcs11Error`.
+func VerifPkcs11Error(code uint) error { return pkcs11Error(code) }
+
+// VerifFatalCodes lists the keys of fatalErrors in ascending order.
+func VerifFatalCodes() []uint {
+	var out []uint
+	for k, v := range fatalErrors {
+		if v {
+			out = append(out, uint(k))
+		}
+	}
+	sort.Slice(out, func(i, j int) bool { return out[i] < out[j] })
+	return out
+}
